@@ -280,3 +280,28 @@ pub fn xz_multibyte_roundtrip() {
     vcover!(n == 4, "four_byte_value");
     forget(g);
 }
+
+
+//@ harness props=C12,C04 tier=quick unwind=12 unwindset=update_table:12,write_multibyte:4,RecSink.*write_all:12,ref_crc32:12 mem_gb=4 timeout=600
+//@ bound: write_index directly with unpadded size 300 and uncompressed size 5 (3 padding bytes) into a sink that accepts ONE byte per write call: every byte (records, padding, CRC32) reaches the sink
+#[cfg_attr(kani, kani::proof)]
+#[cfg_attr(kani, kani::stub(std::fmt::format, crate::verif_common::stub_format))]
+#[cfg_attr(kani, kani::stub(std::io::Error::is_interrupted, crate::verif_common::stub_not_interrupted))]
+pub fn xz_write_index_short_sink() {
+    let mut sink = RecSink::<16>::new();
+    sink.short = 1;
+    let r = write_index(&mut sink, 300, 5);
+    let n = match &r {
+        Ok(n) => *n,
+        Err(_) => usize::MAX,
+    };
+    forget(r);
+    // indicator, count, 2-byte size, 1-byte size = 5 bytes, 3 padding, 4 CRC
+    vassert!(n == 12, "xz index: size = indicator + count + two multibyte fields + padding to a multiple of four + CRC32");
+    vassert!(sink.len == 12 && !sink.overflow, "xz index: every byte reaches a sink that accepts only part of each write");
+    vassert!(sink.buf[0] == 0 && sink.buf[1] == 1 && sink.buf[2] == 0xAC && sink.buf[3] == 0x02 && sink.buf[4] == 5, "xz index: indicator 0x00, one record, sizes as multibyte integers");
+    vassert!(sink.buf[5] == 0 && sink.buf[6] == 0 && sink.buf[7] == 0, "xz index: padding bytes are zero");
+    let crc = u32::from_le_bytes([sink.buf[8], sink.buf[9], sink.buf[10], sink.buf[11]]);
+    vassert!(crc == ref_crc32(&sink.buf[0..8]), "xz index: CRC32 over indicator, records and padding");
+    vcover!(true, "end_reached");
+}
